@@ -462,3 +462,29 @@ PROPS['C10']['explanation'] = PROPS['C10']['explanation'] + (
     ' Client side: C05_accept_iff — no HELO / PONG byte sequence puts the client into transport phase except one carrying '
     'the digest for this salt, nonce and key (every other input: error, phase unchanged); the tcp suite feeds truncated, empty, '
     'upper-case, reflected, replayed and garbage HELO / PONG / ack bytes to the real client.')
+
+# ---- the deciding method per property (MANIFEST "technique") ----
+_T_CODEC = ("Lean 4 theorems (induction over the msgpack grammar / structural recursion over the model of the msgp primitives and of "
+            "the repository's encoders and decoders), kernel-checked; model tied to /repo by differential correspondence: Go harness "
+            "runs the real code on generated inputs, the compiled Lean driver runs the model's own definitions and an independent "
+            "specification oracle on the same lines")
+_T_SEQ = ("Lean 4 theorems over a sequential state-machine model (step function; invariants by induction over the operation list; "
+          "peer and network are inputs of every step), kernel-checked; tied to /repo by differential correspondence on operation "
+          "sequences against scripted connections (per-operation result and event list must equal the model's)")
+_T_CONC = ("Lean 4: (a) a lockset checker with access policies proved sound once for all programs and all schedules (check_sound, "
+           "critical_section_exclusive), instantiated by `decide` on control-flow graphs that a go/ast translator regenerates from "
+           "/repo on every run; (b) interleaving models with invariants by induction over the schedule; (c) sequential model + "
+           "differential correspondence; real concurrent runs (instrumented mocks, gated hooks, race detector) only search for a "
+           "concrete failing schedule")
+TECHNIQUE = {
+    'C01': _T_CODEC, 'C02': _T_CODEC + '; helpers: model of the Send* helpers, wire compared byte for byte', 'C03': _T_CODEC +
+    '; gzip abstract (Codec with gunzip o member = id), pooled compressor as a state machine, histories in one process',
+    'C04': _T_SEQ, 'C05': _T_SEQ + '; plus a symbolic (Dolev-Yao) model of the handshake with a derivability induction',
+    'C06': _T_SEQ, 'C07': _T_CODEC + '; heap-ownership model with interleavings for the pooled buffers',
+    'C08': _T_CONC, 'C09': _T_SEQ, 'C10': _T_CODEC + '; totality = every model function is total and never returns `panic`',
+    'C11': _T_CODEC, 'C12': _T_CODEC + '; base64 injectivity proved for every length', 'C13': _T_CODEC, 'C14': _T_CONC,
+    'C15': _T_CONC, 'C16': _T_CONC, 'C17': _T_CONC, 'C18': _T_CODEC, 'C19': _T_CODEC + '; integer arithmetic on seconds / nanoseconds',
+    'C20': _T_CODEC + '; multiset equality by counting, proved equivalent to the matching loop',
+}
+for _k, _v in TECHNIQUE.items():
+    PROPS[_k]['technique'] = _v
